@@ -341,6 +341,8 @@ class World:
 
 
 def _child(case):
+    from vlib import sampler
+    sampler.set_draw(0)      # which item of a multi-item container is inspected must not depend on chance (nor on the history)
     w = World()
     if case.get('late_defined') and not case['history']:
         pass
